@@ -100,13 +100,14 @@ func around(b []byte, i int) string {
 
 // Run generates and checks the programs.
 func Run(r *mon.Run) {
-	r.Rule = "engine prog: program i is built from r.Rng(\"prog\", i) by a grammar of Perl statements (print of single-quoted / double-quoted-with-escapes / q-operator / here-doc literals whose contents walk over all 256 byte values; braces, quotes and backslashes in code; @ARGV echo with hex dump; STDIN slurp/line/read/<> with hex dump; subs, closures, sort, regex, pack, sprintf, string eval, scoped objects, file I/O in the cwd, BEGIN blocks, use constant / List::Util / POSIX, say, signatures, state, format/write, :utf8 output layer; optional strict/warnings or use v5.36; one script in twelve with CR LF line endings; ending: fall off the end / exit N / die \"msg\\n\" / die \"msg\" / runtime error; optional text after __END__ or __DATA__ that is never read; optional leading comment block with #!, bare #, TABDOC and shell-hostile comment lines; optional leading/trailing whitespace), padded so that the length of the text perl receives is i mod 45; indices 0..7 are the empty, whitespace-only and comment-only scripts; a few indices per hundred are 30-64 KiB. Each program gets one argument vector (every 4th: none) and one stdin content, and is run by `perl file args` and by `<shell> -c '. ./f; name \"$@\"' sh args` for dash and bash in fresh directories with a fixed environment. Oracle: stdout byte-identical and exit status identical; dying scripts: non-zero status, stderr contains the die message, and for messages without newline the reported line number equals perl's own (minus newlines in trimmed leading whitespace). Static: body between q{` and }=~y/sb/ with s->' b->\\ reversed, decoded by a live perl unpack('u'), equals the harness's reference text (trim, blank the leading comment run); leading comments and function name as stated. Engine probe: fixed scripts for the behavioural differences found by hand (END block, global DESTROY, raw CR after a here-doc, raw CRLF in a literal, `use utf8` followed by non-UTF-8 bytes, __END__ followed by a line starting with ':'), which the random generator avoids together with $0/__FILE__/caller/__DATA__ reads/INIT/CHECK/__DIE__ handlers/top-level return/child perl/time/pid/rand/hash order. Engine names (function names that mean something to the shell): a fixed list of script base names taken from the shells' regular builtins (kill type wait hash jobs test echo printf read cd [ ...), special builtins (set exit eval exec export : . ...), bash's own builtins (declare local source ...), reserved words (if for time function { ! ...), common utilities (ls cat env perl sh ...) and variables (PATH HOME IFS PERL5OPT ...); each of dash, bash and bash --posix is first ASKED whether a script may define and call a function of that name (`name() { >./called-$#; }; name a b`, a body without any command: status 0 and the file called-2 exist), and for every (name, shell) pair the shell accepts one generated program (thorough: six) - never the empty / whitespace-only / comment-only ones - is saved as name.pl / name.perl / dir/name.pl / name.PL / name and goes through the very same static and dynamic oracle under exactly the accepting shells; FromPerl returning an error for such a name is a violation; pairs the shell refuses are counted and not judged. A name that occurs as a word in the generated function's own text (comment lines in front, the opening `name()` and the encoded script left out) may make the function call itself; such a case is run CONTAINED (uid/gid 64999 used by nothing else, RLIMIT_NPROC 64 set and read back by the shell text itself which also checks `id -u` before it sources anything, one such run at a time on the machine, killed leaves-first as soon as a failed fork is reported) and `went on until fork failed` is reported under the key perl-function-name-used-by-wrapper:<name> (one key per name, whatever the shell); any other difference of a contained run is judged and keyed like that of every other case of the engine (<clause>:function-name-known-to-shell). distinct_nontrivial = distinct (program text, args, stdin) triples (hash) of non-empty programs whose reference run produced output or a non-zero status"
+	r.Rule = "engine prog: program i is built from r.Rng(\"prog\", i) by a grammar of Perl statements (print of single-quoted / double-quoted-with-escapes / q-operator / here-doc literals whose contents walk over all 256 byte values; braces, quotes and backslashes in code; @ARGV echo with hex dump; STDIN slurp/line/read/<> with hex dump; subs, closures, sort, regex, pack, sprintf, string eval, scoped objects, file I/O in the cwd, BEGIN blocks, use constant / List::Util / POSIX, say, signatures, state, format/write, :utf8 output layer; optional strict/warnings or use v5.36; one script in twelve with CR LF line endings; ending: fall off the end / exit N / die \"msg\\n\" / die \"msg\" / runtime error; optional text after __END__ or __DATA__ that is never read; optional leading comment block with #!, bare #, TABDOC and shell-hostile comment lines; optional leading/trailing whitespace), padded so that the length of the text perl receives is i mod 45; indices 0..7 are the empty, whitespace-only and comment-only scripts; a few indices per hundred are 30-64 KiB. Each program gets one argument vector (every 4th: none) and one stdin content, and is run by `perl file args` and by `<shell> -c '. ./f; name \"$@\"' sh args` for dash and bash in fresh directories with a fixed environment. Oracle: stdout byte-identical and exit status identical; dying scripts: non-zero status, stderr contains the die message, and for messages without newline the reported line number equals perl's own (minus newlines in trimmed leading whitespace). Static: body between q{` and }=~y/sb/ with s->' b->\\ reversed, decoded by a live perl unpack('u'), equals the harness's reference text (trim, blank the leading comment run); leading comments and function name as stated. Engine probe: fixed scripts for the behavioural differences found by hand (END block, global DESTROY, raw CR after a here-doc, raw CRLF in a literal, `use utf8` followed by non-UTF-8 bytes, __END__ followed by a line starting with ':'), which the random generator avoids together with $0/__FILE__/caller/__DATA__ reads/INIT/CHECK/__DIE__ handlers/top-level return/child perl/time/pid/rand/hash order. Engine names (function names that mean something to the shell): a fixed list of script base names taken from the shells' regular builtins (kill type wait hash jobs test echo printf read cd [ ...), special builtins (set exit eval exec export : . ...), bash's own builtins (declare local source ...), reserved words (if for time function { ! ...), common utilities (ls cat env perl sh ...) and variables (PATH HOME IFS PERL5OPT ...); each of dash, bash and bash --posix is first ASKED whether a script may define and call a function of that name (`name() { >./called-$#; }; name a b`, a body without any command: status 0 and the file called-2 exist), and for every (name, shell) pair the shell accepts one generated program (thorough: six) - never the empty / whitespace-only / comment-only ones - is saved as name.pl / name.perl / dir/name.pl / name.PL / name and goes through the very same static and dynamic oracle under exactly the accepting shells; FromPerl returning an error for such a name is a violation; pairs the shell refuses are counted and not judged. A name that occurs as a word in the generated function's own text (comment lines in front, the opening `name()` and the encoded script left out) may make the function call itself; such a case is run CONTAINED (uid/gid 64999 used by nothing else, RLIMIT_NPROC 64 set and read back by the shell text itself which also checks `id -u` before it sources anything, one such run at a time on the machine, killed leaves-first as soon as a failed fork is reported) and `went on until fork failed` is reported under the key perl-function-name-used-by-wrapper:<name> (one key per name, whatever the shell); any other difference of a contained run is judged and keyed like that of every other case of the engine (<clause>:function-name-known-to-shell). Engine dir (the way a user gets the function: a DIRECTORY source): case i builds a library directory holding 1-3 generated programs (never the empty / whitespace-only / comment-only ones; POSIX function names) TOGETHER WITH NEIGHBOURS that sort directly before and after each script - .sh / .subr files with and without a final newline (one-line and multi-line definitions, assignments, if/case, ending in a comment), empty and whitespace-only shell files, other Perl scripts, dot-files, files no filter matches, sub-directories (one named like a script) - the kind of the first script's neighbours going through the list by index; the directory is reached through spelling i mod 20 (absolute, relative, ./x, x/, `.` from inside, ../x, ../../a/x, a dot-directory, absolute and nested paths through dot-directories, relative and absolute symbolic links, a link inside a dot-directory, names with spaces (also at the edges), with % verbs, with glob characters, x/../x/./, a//x//, absolute with ..) from a working directory of its own; the functions are produced by (1) Converter.From in this process (absolute spellings as they are, clean relative ones with Converter.FS = os.DirFS(cwd); list function on or off), (2) the real `curlrevshell -ctrl-i SRC -print-ctrl-i` with the two flags in six spellings/orders (-f v, -f=v, --f v, --f=v, print first, -ctrl-i given twice) and under the program's other documented options alone and in pairs by index (-no-timestamps, -one-shell, -ipv6-one-liners, -callback-address once / 30 times, -serve-files-from a directory / empty, -callback-template missing, -tls-certificate-cache, -log, CURLREVSHELL_LOG, -listen-address, -prompt, -icanhazip), (3) the shellfuncsfile tool (plain, -no-list-function, after --, with a second single-file source before or after the directory); a route that fails to produce output is a violation (convert-error); the WHOLE output of each route is sourced by dash and by bash and EVERY Perl script of the directory is called through its function with its own arguments and stdin; same oracle as engine prog (stdout bytes, exit status, die message and line, CANARY), keys <clause>:directory-source. distinct_nontrivial = distinct (program text, args, stdin) triples (hash) of non-empty programs whose reference run produced output or a non-zero status"
 	r.Assumptions = []string{
 		"perl 5.36, dash and bash as installed are the platform; `perl file args` in the same fixed environment is the reference",
 		"stderr is compared only for the die-message clause",
 		"programs are sampled from a grammar; the space of Perl scripts is not enumerated",
 		"the statement's own trimming of leading blank lines shifts line numbers by the trimmed newlines; that shift is taken as stated behaviour",
 		"which names may be given to a function is the shell's business: a (name, shell) pair is judged only if that shell, asked directly, defines and calls a function of that name; the list of names is fixed, the set of all names a shell knows is not enumerated",
+		"engine dir: what a directory source yields besides the Perl functions (shell files as they are, the tab_list function) is not judged by itself, only through its effect on sourcing the output and calling the Perl functions; the neighbouring shell files are complete, silent shell texts with or without their final newline; Converter.FS is only used with directory names free of glob characters (fs.Sub documents that Glob takes them for a pattern)",
 		"functions whose own text uses their name are only run as root-started processes of uid 64999 under a process limit; when the check is not root or its work directory cannot be reached by another uid they are NOT run and listed under names_not_explored in the evidence",
 	}
 
@@ -121,6 +122,20 @@ func Run(r *mon.Run) {
 		}
 		defer pp.Close()
 		a.packers <- pp
+	}
+
+	// engine dir needs the two programs: they are built while the other engines run
+	type built struct {
+		crsBin, tool string
+		err          error
+	}
+	var buildCh chan built
+	if r.WantEngine("dir") {
+		buildCh = make(chan built, 1)
+		go func() {
+			c, t, err := buildDirBinaries(r)
+			buildCh <- built{c, t, err}
+		}()
 	}
 
 	n := r.N(400, 8000)
@@ -147,6 +162,9 @@ func Run(r *mon.Run) {
 
 	if r.WantEngine("names") {
 		runNames(r, a)
+	}
+	if r.WantEngine("dir") {
+		runDirs(r, func() (string, string, error) { b := <-buildCh; return b.crsBin, b.tool, b.err })
 	}
 
 	cnt := func(b []bool) int64 {
